@@ -217,6 +217,10 @@ static int c_xstream_create_rank(void)
 {
     return ABT_xstream_create_with_rank(ABT_SCHED_NULL, 5, (ABT_xstream *)&g_h);
 }
+static int c_xstream_create_rank_sched(void)
+{
+    return ABT_xstream_create_with_rank(g_sched0, 5, (ABT_xstream *)&g_h);
+}
 static void uf_xstream_rank(void)
 {
     int r = -1;
@@ -1290,6 +1294,7 @@ static const scen_t g_scens[] = {
     { "xstream_create_sched", 0, NUL(ABT_XSTREAM_NULL), s_xstream_sched, c_xstream_create_sched, hs_generic, uf_xstream_sched, td_xstream_sched },
     { "xstream_create_basic", 0, NUL(ABT_XSTREAM_NULL), s_pool0, c_xstream_create_basic, hs_generic, uf_xstream_pool0, td_pool0 },
     { "xstream_create_rank", 0, NUL(ABT_XSTREAM_NULL), s_plain, c_xstream_create_rank, hs_generic, uf_xstream_rank, NULL },
+    { "xstream_create_rank_sched", 0, NUL(ABT_XSTREAM_NULL), s_xstream_sched, c_xstream_create_rank_sched, hs_generic, uf_xstream_sched, td_xstream_sched },
     { "xstream_create_maxxs", F_MAXXS1, NUL(ABT_XSTREAM_NULL), s_plain, c_xstream_create_rank1, hs_generic, uf_xstream, NULL },
     { "xstream_create_refill", F_LPMALLOC | F_SMALLPAGES, NUL(ABT_XSTREAM_NULL), s_global_stack_exhausted, c_xstream_create, hs_generic, uf_xstream, td_held },
     { "xstream_create_populated", 0, NUL(ABT_XSTREAM_NULL), s_populated, c_xstream_create, hs_generic, uf_xstream, td_populated },
